@@ -105,6 +105,116 @@ PROPS = {
                  "(theorem makes the result independent of the segmentation actually seen)"],
         assumptions=["messages are well framed (first delimiter in body++delimiter is the appended one)"],
     ),
+    "C09": dict(
+        thm=["Bgpfu.Thm.C09"],
+        # cfg= selects the model variant the implementation is compared with: `pinned` = /repo as it is;
+        # add `+get`, `+edit-startup`, `+delete-candidate`, `+cap-unescape` as the corresponding repairs land
+        # in /repo (`fixed` = all four)
+        ops=[("build", ["cfg=fixed"])],
+        level_text="Theorems over every capability set (any list of capabilities, arbitrary URL-scheme lists), every "
+                   "operation and every sequence of builder calls: whatever reaches the transport satisfies every entry "
+                   "the RFC 6241 section 8 table attaches to the request (sent_implies_permitted, for the repaired builders; "
+                   "_partial + three counter-examples for the code as it is); conversely a build whose operation and call "
+                   "arguments are permitted and whose mandatory parameters are present succeeds "
+                   "(permitted_implies_buildable); a failed build leaves the transport untouched. The builder model is tied "
+                   "to /repo by issuing every operation x call combination through real Sessions (one per capability set) "
+                   "and comparing Err(kind) / the parsed wire bytes with the model; the RFC table is evaluated on what was "
+                   "found on the wire.",
+        level_note="The RFC table (Model/Rfc6241.lean) is hand-written from RFC 6241 section 8 / the YANG if-feature statements and is "
+                   "trusted as the specification. URI validity and decomposition of capability / URL texts come from the "
+                   "real iri-string parse (annotated input); the exact-URI table and the ?scheme= query splitting are "
+                   "modelled. String-valued payloads (filter bodies, config) are irrelevant to capability checks and are "
+                   "fixed samples. Theorems quantify over all capability lists; the correspondence run samples them.",
+        rule="capability sets: all subsets of the 13 known capabilities of size <=2 and >=11, every subset of the 11 "
+             "optional ones of size <=2 with base 1.0 / both bases and each of 8 :url query variants, 200 random subsets "
+             "(with unknown / near-miss / duplicate / reordered capability URIs), invalid capability text; thorough: all "
+             "2^13 subsets. Per established session: every operation x every combination of its builder calls and enum "
+             "values (edit-config: full target x error-option x test-option product, content/URL x target, 40 random "
+             "shuffled full combinations; thorough: full 5-way product), 8 URL texts, repeated/overriding calls; a case "
+             "is distinct by (capability list, operation, call list)",
+        trusted=["RFC 6241 section 8 table as transcribed in Model/Rfc6241.lean",
+                 "iri-string's URI validation/decomposition (annotated input to the model)",
+                 "harness-side quick-xml parse of the wire bytes into the canonical request"],
+        assumptions=["a session exists (common base version); otherwise nothing can be sent at all"],
+    ),
+    "C11": dict(
+        thm=["Bgpfu.Thm.C11"],
+        ops=[("evalseq", ["c11"])],
+        level_text="Theorems (every database — nested, cyclic, self-referencing sets, v4-only / v6-only / route-less ASes, "
+                   "duplicates — every expression and every evaluator state between evaluations): the fake IRRd's recursive "
+                   "expansion is the reflexive-transitive membership closure (termination proved); the as-set resolver returns "
+                   "the routes of that closure; whenever an evaluation succeeds its result equals, on every prefix of a length the "
+                   "family has, an independently written RFC 2622/4012 denotation (AND/OR/NOT, range operators on literals and on "
+                   "sets, as-sets, route-sets, aut-nums, filter-set indirection); the IPv4/IPv6 partition handed to the router is "
+                   "lossless. The model is tied to the real RpslEvaluator, the bgpfu binary and Policies<Candidate>::evaluate by "
+                   "runs against a loopback fake IRRd whose every response body is computed by the Lean model.",
+        level_note="Theorems are about the Lean models (Model/Irr.lean, Model/Rpsl.lean) and the Lean specification "
+                   "(Model/RpslSpec.lean). The set algebra of generic-ip (any/!/&/|/ranges/as_partitions) and rpsl's parser are "
+                   "trusted; outputs are compared with the model by membership on a probe set (every prefix mentioned, parent, "
+                   "children, sibling, descendants at every operator bound ±1), not by set equality. Side conditions of "
+                   "eval_eq_denote: the upper bound of a ^n-m operator is within the address family (for an operator applied to a "
+                   "set: ≤ 32); for the code as it is (Cfg.pinned) no route-set member carries a range operator (D16: such members "
+                   "are silently dropped — routeset_range_member_dropped_cex; spec class routeset-range-member-dropped). "
+                   "Two further spec classes concern the dependencies in front of / below the evaluator and are not repairable in "
+                   "/repo: operator-precedence (the rpsl grammar reads `A AND B OR C` as `A AND (B OR C)` and `NOT A AND B` as "
+                   "`NOT (A AND B)`, RFC 2622 §5.4 prescribes NOT > AND > OR; operator_precedence_cex; eval_eq_denote is about the "
+                   "tree the parser built) and not-exponential-in-prefix-length (generic-ip 0.1.1 complements a set in time "
+                   "exponential in the prefix length: ~0.2 s for a /16, ~40 s for a /24, no result for a /32 — NOT over real IRR "
+                   "data does not terminate in practice; therefore NOT is only exercised over prefixes ≤ /12). The agent path is `agent::verif::evaluate` (H3); route-filters installed in the fake "
+                   "Junos are covered by the agent-run op of C01.",
+        rule="generated databases (≤ 8 sets, ≤ 10 ASes, cyclic / self-referencing membership, unknown member sets, v4-only / "
+             "v6-only / route-less ASes, duplicate prefixes, route-sets with prefix, AS and set members, with and without range "
+             "operators, filter-sets with one or several objects) × generated expressions (depth ≤ 3); three runners in turn: "
+             "RpslEvaluator in-process, bgpfu binary (stdout), H3 evaluate; a case is distinct by (database, expressions, runner)",
+        trusted=["generic-ip PrefixSet algebra and range aggregation; rpsl parser (expression text → AST; filter-set object text)",
+                 "fake IRRd wire fidelity to IRRd 4 (response framing, D for empty results optional, AS members of route-sets "
+                 "resolved server-side)",
+                 "probe-set comparison instead of set equality"],
+        assumptions=["^n-m upper bounds within the address family (OpsOk / DbOpsOk)",
+                     "Cfg.pinned: route-set members are plain prefixes (RsPlain)",
+                     "filter-set indirection is acyclic (cyclic filter-sets recurse without bound in the code)"],
+    ),
+    "C15": dict(
+        thm=["Bgpfu.Thm.C15"],
+        ops=[("evalseq", ["c15"])],
+        level_text="Theorems (evaluator part; every database, every list of candidates in every order, every per-candidate "
+                   "fault set): a completed run gives each candidate exactly its solo result (isolation, via C17's connection "
+                   "invariant); candidates that fail with an error never abort the run; with the two proposed repairs "
+                   "(Cfg.fixed) no expression at all — PeerAS, AS-path regexps, attribute matches included — aborts the run, "
+                   "and the evaluator stays usable. For the code as it is (Cfg.pinned) the counter-examples "
+                   "peeras_panics_cex / aspath_attr_panic_cex show the abort. Correspondence: mixed policy sets through "
+                   "Policies<Candidate>::evaluate (H3) under catch_unwind, and sequences on one RpslEvaluator across panics.",
+        level_note="Evaluator part only: the model's `abort` is the panic of the evaluation task; that handle_task then fails the "
+                   "whole run before any load/commit (task.rs:57-82,183-189) is the agent-run model's part — the ops list is to be "
+                   "extended with the end-to-end agent run (fake Junos + fake IRRd; which policies were updated, exit status). "
+                   "Evaluation order inside Policies::evaluate is the HashMap's (random per run); the theorem covers all orders, the "
+                   "harness observes whichever orders occur. Spec classes: panic-peeras, panic-aspath-regex, panic-attr-match (D11).",
+        rule="policy sets of 2–4 members mixing evaluable expressions, unknown as-/route-/filter-sets, PeerAS, `<^AS…>`, "
+             "`community(…)`, and IRRd D/E/F answers selected by query; H3 evaluate under catch_unwind, and the same on one "
+             "RpslEvaluator in sequence (each item also on a fresh evaluator)",
+        trusted=["panic classification by panic message", "HashMap iteration order is not controlled by the harness"],
+        assumptions=["no cyclic filter-sets (diverge)"],
+    ),
+    "C17": dict(
+        thm=["Bgpfu.Thm.C17"],
+        ops=[("evalseq", ["c17"])],
+        level_text="Theorems (every database, expression, fault set, history; both configurations): after every evaluate — "
+                   "successful, failed at any query, panicked — the evaluator holds its connection with no outstanding response; "
+                   "evaluating after any history equals evaluating on a fresh evaluator (outcome, queries, consumed responses); "
+                   "every consumed response is attributed to the query it answers and the consumed pairs are exactly the sent "
+                   "pairs in order. Correspondence: histories of 2–8 expressions on one real RpslEvaluator with D/E/F answers "
+                   "injected at chosen query indices / for chosen queries, each expression also on a fresh evaluator, the fake's "
+                   "(query, answer) log compared with the model's.",
+        level_note="The model abstracts irrc's Pipeline to push / pop / drain-on-drop over whole responses (item-level partial "
+                   "consumption inside one response, as in the filter-set resolver's find_map, is irrc's Response::drop and is "
+                   "exercised only by the correspondence run: filter-sets with several objects). TCP-level faults (connection "
+                   "closed mid-response) are out of scope: irrc then busy-loops on 0-byte reads (observed while building the fake; "
+                   "not a property of this repository).",
+        rule="generated databases as for C11 (no range-operator members) × histories of 2–8 expressions (repeats of earlier "
+             "expressions included, unknown names included) × per-expression fault sets (index- and query-selected D/E/F)",
+        trusted=["the fake applies faults by the index of the query within the current evaluation; the harness resets the index "
+                 "before each evaluate (sound because of conn_invariant: nothing is in flight between evaluations)"],
+    ),
     "C07": dict(
         thm=["Bgpfu.Thm.C07"],
         ops=[("frame", ["only-close"])],
@@ -295,5 +405,62 @@ PROPS = {
                    "transport's recv is assumed cancel-safe (true for the three transports: buffers live in the handle).",
         rule="as C05, restricted to schedules containing at least one drop",
         trusted=["RecvHandle::recv is cancel-safe"],
+    ),
+    "C20": dict(
+        thm=["Bgpfu.Thm.C20"],
+        pre_lean="python3 tools/logtable.py",
+        ops=[("logs", [])],
+        timeout=900,
+        technique="Lean 4 non-interference theorem over a table that a translator (tools/logtable.py) regenerates from the "
+                  "Rust sources on every run (every tracing::instrument attribute, tracing event macro and error-text "
+                  "constructor with the formatter class of each recorded field) + dynamic scan of everything the real "
+                  "library/agent write to a capturing subscriber / stderr / log file",
+        level_text="Theorem log_noninterference: for all values of the SSH password and of the TLS client key the logging "
+                   "sites of netconf and junos-agent write the same text, at every verbosity and under every filter "
+                   "(log_noninterference_at_level, log_noninterference_filtered). Proved for ALL tables without a "
+                   "secret-printing formatter (induction) and instantiated by deciding that side condition in the kernel on "
+                   "the table regenerated from /repo; noninterference_iff_allSafe shows the side condition is exact, so one "
+                   "leaking site makes the theorem fail. The table is tied to the code by the translator (fails closed) and "
+                   "by checking the runtime metadata (file, line, level, field names) of every callsite seen in real SSH / "
+                   "TLS / local-CLI sessions against it.",
+        level_note="The theorem is about the source-derived table: it covers every logging and error-text site of the two "
+                   "crates, not what dependencies (russh, rustls, tokio) log themselves and not the translator's "
+                   "classification rules (formatter evidence for dependency types is re-read from the vendored sources on "
+                   "every run; data flow is explicit-flow, name-based, intraprocedural plus function-result summaries). "
+                   "Those gaps are covered by a test only: real connection attempts (accepted/rejected passwords, four "
+                   "private-key formats, wrong CA / name / key, mis-wired and damaged PEM files given to the real agent "
+                   "binary) under a TRACE subscriber and several EnvFilter directives, whose complete output is searched for "
+                   "each secret in clear, Debug-escaped, hex, base64 and byte-list form.",
+        rule="a case is one real connection attempt or agent run: (transport ssh|tls|cli, outcome variant, secret value, "
+             "EnvFilter directive) or (agent, PEM scenario, key format, one-shot|daemon, verbosity); plus one row per distinct "
+             "callsite (kind, file, line, level, field names) observed at run time, one row for the table's side condition "
+             "and two source-count rows",
+        trusted=["tools/logtable.py: lexer, attribute/macro parser, explicit-flow taint rules and the list of secret-carrying "
+                 "types (Password, PrivateKeyDer & variants, rustls_pemfile::Item as values; ClientConfig, TlsStream as handles)",
+                 "rustc/tracing-attributes semantics of #[instrument] (records every non-skipped parameter with Debug) as "
+                 "mirrored by the translator; checked per callsite against runtime metadata only for the sites the runs reach",
+                 "the dynamic scan sees only the encodings it searches for (clear, Debug/escape_default, hex, base64 std/url, "
+                 "byte list; whole secret, PEM body lines and 16-byte windows of the private part of the key)"],
+        assumptions=["error values logged by the agent consist of the error texts constructed in the two crates (table entries "
+                     "of kind errtext) and of dependency error texts (scan only)",
+                     "methods of rustls ClientConfig / TlsStream and of the russh session handle do not return the secret "
+                     "they were built from (results of calls on these handles are not followed by the translator)"],
+    ),
+    "C04": dict(
+        thm=["Bgpfu.Thm.C04"],
+        ops=[("agentrun", [])],
+        level_text="The run is modelled as a phase program (send all requests of a phase, then await them in order; any "
+                   "error ends the run) against a server with one scripted fault. Theorems for EVERY number of loads, "
+                   "every fault position and every fault kind: commit is requested only if open, both fetches and all "
+                   "loads were positively acknowledged and the connection was still up; a fault at or before the last "
+                   "load means no commit and a failed run; the run succeeds iff every request was positively acknowledged. "
+                   "The real Updater::run is executed against an in-memory fake Junos for every position x kind.",
+        level_note="Model of the control flow of task.rs / netconf/mod.rs at request granularity; tokio task plumbing "
+                   "(spawn, try_join!, block_in_place) is exercised, not modelled. For connection-closing faults the number "
+                   "of already pipelined requests the server still reads is a race and is not compared.",
+        rule="N in {0,1,2,5} (thorough: up to 8) updates x every fault position 1..6+N x {rpc-error, malformed reply, "
+             "mis-numbered reply, close before reply, close after reply} (exhaustive), plus the fault-free run; observed: "
+             "ordered RPC names received by the fake Junos and the result of run()",
+        trusted=["fake Junos replies; the IRR side is a fake IRRd (expressions are literal prefix sets)"],
     ),
 }
